@@ -251,3 +251,6 @@ def tie(ctx):
         "divergences": divergences[:20],
         "violations": violations[:8],
     }
+
+
+tie = _implgen.wrap_tie(tie)   # + regenerated model vs real library (translator validation)
